@@ -304,6 +304,20 @@ example : ∃ x : ℝ → DVec ℝ, LCurve 6 x [1, 0, 0, 0, 1, 0] ∧ (5:ℝ)/10
       apply Real.le_sqrt_of_sq_le; norm_num
     exact lt_of_lt_of_le (by norm_num) h2
 
+/-- **`rxso3_Exp.backward`** on the closed-form branch: tangent `rxso3_Jl(x)·d` -/
+theorem rxso3_Exp_tangent (eps : ℝ) (heps : 0 ≤ eps) (x : ℝ → DVec ℝ) (d0 d1 d2 d3 : ℝ)
+    (hx : LCurve 4 x [d0, d1, d2, d3]) (hth : eps < (v3 (x 0)).norm) :
+    GTangent .RxSO3 (fun t => expF .RxSO3 eps (x t)) ((JlMat .RxSO3 eps (x 0)).mulVec [d0, d1, d2, d3]) :=
+  rxso3Exp_tangent eps heps x d0 d1 d2 d3 hx hth
+
+/-- **`RxSO3_Log.backward`** in regime 1 of the rotation logarithm: velocity `rxso3_Jl_inv(Log X)·τ` -/
+theorem RxSO3_Log_tangent (eps : ℝ) (heps : 0 ≤ eps) (X : ℝ → DVec ℝ) (a0 a1 a2 a3 : ℝ)
+    (hX : GTangent .RxSO3 X [a0, a1, a2, a3]) (hu : UnitQ .RxSO3 (X 0)) (hs : ScaleNZ .RxSO3 (X 0))
+    (hv : eps < (qt (X 0)).vec.norm) (hw : eps < |(qt (X 0)).w|)
+    (hφ : eps < (v3 (logF .SO3 eps [nth (X 0) 0, nth (X 0) 1, nth (X 0) 2, nth (X 0) 3])).norm) :
+    LCurve 4 (fun t => logF .RxSO3 eps (X t)) ((JlInvMat .RxSO3 eps (logF .RxSO3 eps (X 0))).mulVec [a0, a1, a2, a3]) :=
+  RxSO3Log_tangent eps heps X a0 a1 a2 a3 hX hu hs hv hw hφ
+
 /-- **`SO3_Log.backward` multiplies by the true derivative** (regime 1 of the logarithm: `‖v‖ > eps`, `|w| > eps`, both
 hemispheres; closed-form branch of `so3_Jl_inv`): a curve of unit quaternions with left-perturbation tangent `τ` is mapped
 to a curve in `so3` with velocity `so3_Jl_inv(Log X(0))·τ`. -/
@@ -403,7 +417,8 @@ theorem gradient_exact_algebraic (dJ : DJ ℝ) (hdJ : DJShape dJ) (eps : ℝ) (l
 /-- **All programs (incl. `Exp`, `Log`, `Jinvp`), partial**: the chain rule is proved; what is assumed (`TransSpec`) is
 local correctness of the transcendental nodes at their positions.  Proved instances of that hypothesis: `so3` `Exp`
 nodes on the closed-form branch (`so3_Exp_node`), `se3` `Exp` nodes on the closed-form branches (`se3_Exp_node`) and
-`SO3` `Log` nodes in regime 1 (`so3_Log_node`).  For `rxso3`/`sim3` `Exp`, the other `Log`s and `Jinvp` it is not proved in Lean (for `sim3` it holds only up to the documented truncation, §6) and rides on the 192-bit finite-difference
+`SO3` `Log` nodes in regime 1 (`so3_Log_node`), `rxso3` `Exp` / `RxSO3` `Log` (`rxso3_Exp_node`, `RxSO3_Log_node`).  For
+`sim3` `Exp`, the `SE3`/`Sim3` logarithms, the other regimes and `Jinvp` it is not proved in Lean (for `sim3` it holds only up to the documented truncation, §6) and rides on the 192-bit finite-difference
 oracle of the check. -/
 theorem gradient_exact_partial (dJ : DJ ℝ) (hdJ : DJShape dJ) (eps : ℝ) (lt : List Ty) (env : ℝ → List (DVec ℝ))
     (tan : List (DVec ℝ)) (hE : EnvOK lt (env 0) tan)
@@ -431,6 +446,19 @@ theorem se3_Exp_node (dJ : DJ ℝ) (eps : ℝ) (heps : 0 ≤ eps) (lt : List Ty)
     (hq : (5:ℝ)/100 < (v3 (eval eps (env 0) p) 3).norm) :
     NodeOK dJ eps lt env tan (.un .Exp .SE3 p) :=
   se3_Exp_nodeOK dJ eps heps lt env tan p hp hth hq
+
+/-- `rxso3` `Exp` nodes (closed-form branch) and `RxSO3` `Log` nodes (regime 1) satisfy their `TransSpec` obligations -/
+theorem rxso3_Exp_node (dJ : DJ ℝ) (eps : ℝ) (heps : 0 ≤ eps) (lt : List Ty) (env : ℝ → List (DVec ℝ)) (tan : List (DVec ℝ))
+    (p : Prog) (hp : NodeOK dJ eps lt env tan p) (hth : eps < (v3 (eval eps (env 0) p)).norm) :
+    NodeOK dJ eps lt env tan (.un .Exp .RxSO3 p) :=
+  rxso3_Exp_nodeOK dJ eps heps lt env tan p hp hth
+theorem RxSO3_Log_node (dJ : DJ ℝ) (eps : ℝ) (heps : 0 ≤ eps) (lt : List Ty) (env : ℝ → List (DVec ℝ)) (tan : List (DVec ℝ))
+    (p : Prog) (hp : NodeOK dJ eps lt env tan p)
+    (hv : eps < (qt (eval eps (env 0) p)).vec.norm) (hw : eps < |(qt (eval eps (env 0) p)).w|)
+    (hφ : eps < (v3 (logF .SO3 eps [nth (eval eps (env 0) p) 0, nth (eval eps (env 0) p) 1, nth (eval eps (env 0) p) 2,
+      nth (eval eps (env 0) p) 3])).norm) :
+    NodeOK dJ eps lt env tan (.un .Log .RxSO3 p) :=
+  rxso3_Log_nodeOK dJ eps heps lt env tan p hp hv hw hφ
 
 /-- an `SO3` `Log` node in regime 1 satisfies its `TransSpec` obligation -/
 theorem so3_Log_node (dJ : DJ ℝ) (eps : ℝ) (heps : 0 ≤ eps) (lt : List Ty) (env : ℝ → List (DVec ℝ)) (tan : List (DVec ℝ))
